@@ -29,7 +29,16 @@ if [ "$MODE" = "--replay" ]; then
   exec "$VERIF/bin/hkcheck" -repo "$REPO" -verif "$VERIF" -tier quick -list "$ID"
 fi
 export GOFLAGS=-mod=mod
-if [ "$MODE" = "thorough" ]; then
-  exec "$VERIF/bin/hkcheck" -repo "$REPO" -verif "$VERIF" -tier thorough "$ID"
+TIER=quick
+[ "$MODE" = "thorough" ] && TIER=thorough
+"$VERIF/bin/hkcheck" -repo "$REPO" -verif "$VERIF" -tier "$TIER" "$ID"
+rc=$?
+if [ $rc -ne 0 ] && [ $rc -ne 1 ]; then
+  # the checker itself died (fatal runtime error): an undecided property is a failed one
+  R="$VERIF/evidence/replay/$ID-checker-crash.json"
+  printf '{"property":"%s","rule":"%s.R0","construct":"checker-crash","status":"violation","detail":"hkcheck exited with status %s before deciding the property; see its output"}\n' "$ID" "$ID" "$rc" > "$R"
+  echo "FINDING rule=$ID.R0 status=violation construct=\"checker-crash\" at : hkcheck exited with status $rc before deciding the property"
+  echo "VIOLATION property=$ID replay=$R"
+  exit 1
 fi
-exec "$VERIF/bin/hkcheck" -repo "$REPO" -verif "$VERIF" -tier quick "$ID"
+exit $rc
